@@ -144,7 +144,8 @@ func TagForests(m int, f func(r *mrepo.Repo, tags []mrepo.ID, targets []int) boo
 type TreeAlphabet struct {
 	Names []string
 	// Leaf kinds: 'a' file blobA 100644, 'b' exec blobB 100755, 'c' file blobC,
-	// 'l' symlink, 's' gitlink, 'e' empty subtree
+	// 'l' symlink, 's' gitlink, 'e' empty subtree, 'g' file blobA with the legacy
+	// group-writable mode 100664 (written by early gits and importers; fsck accepts it)
 	Leaves     string
 	MaxEntries int
 }
@@ -182,6 +183,10 @@ func TreeDAGs(k int, al TreeAlphabet, f func(r *mrepo.Repo, lv Leaves, trees []m
 						es = append(es, mrepo.Entry{Mode: 0o160000, Name: name, Child: lv.Gitlink})
 					case 'e':
 						es = append(es, mrepo.Entry{Mode: 0o40000, Name: name, Child: r.AddTree(nil)})
+					case 'g':
+						es = append(es, mrepo.Entry{Mode: 0o100664, Name: name, Child: lv.BlobA})
+					default:
+						panic("gen: unknown leaf kind " + string(al.Leaves[c]))
 					}
 				} else {
 					es = append(es, mrepo.Entry{Mode: 0o40000, Name: name, Child: ids[c-len(al.Leaves)]})
